@@ -179,6 +179,7 @@ impl Oplog {
     pub fn clean_op_log_metadata_files() {
         remove_invalidate_oplog_file();
         remove_op_log_file();
+        remove_keys_map_file();
         if let Ok(entries) = read_dir(get_op_log_dir_name()) {
             for entry in entries {
                 let file_name = entry.unwrap().file_name().into_string().unwrap();
@@ -271,6 +272,17 @@ pub fn load_keys_map_from_disk() -> HashMap<String, u64> {
         initial_db = bincode::deserialize_from(&mut file).unwrap();
     }
     return initial_db;
+}
+
+fn remove_keys_map_file() {
+    let file_name = get_keys_map_file_name();
+    log::debug!("Will delete {}", file_name);
+    if Path::new(&file_name).exists() {
+        match fs::remove_file(file_name.clone()) {
+            Err(e) => log::error!("Could not delete the {}, {}", file_name, e),
+            _ => (),
+        };
+    }
 }
 
 fn remove_invalidate_oplog_file() {
